@@ -71,7 +71,7 @@ def shard(ctx):
 
 def finish(agg, tier):
     cov, inc = per_op_coverage(agg, 15 if tier == "quick" else 40)
-    for k in ("purity.fingerprints", "purity.cursor_checks", "purity.str_checks", "purity.after_accepted", "purity.after_rejected", "purity.reruns", "purity.forward_queries", "fault.injections", "fault.surfaced", "fault.swallowed", "fault.count_runs"):
+    for k in ("purity.fingerprints", "purity.cursor_checks", "purity.str_checks", "purity.after_accepted", "purity.after_rejected", "purity.reruns", "purity.late_reruns", "purity.c_compiles", "purity.c_rechecks", "purity.forward_queries", "fault.injections", "fault.surfaced", "fault.swallowed", "fault.count_runs"):
         cov[k.replace(".", "_")] = agg.stats.get(k, 0)
     if agg.stats.get("fault.injections", 0) < 100:
         inc.append("fewer than 100 injected faults")
